@@ -206,8 +206,7 @@ def run_harness(ck, binp, lines, tag="cases"):
     return res, log
 
 
-def coq_compare(ck, name, exprs, timeout=900):
-    """exprs: list of Coq terms of type Z (cmp_res ...). Returns (ok, disagree idx list, oom idx list | log)."""
+def _coq_compare_one(ck, name, exprs, timeout):
     chunks = []
     for i in range(0, len(exprs), 400):
         chunks.append("Definition c%d : list Z := [\n%s\n]." % (i // 400, ";\n".join(exprs[i:i + 400]) or ""))
@@ -223,6 +222,27 @@ def coq_compare(ck, name, exprs, timeout=900):
     if res["n"] != [len(exprs)]:
         return False, "case count mismatch %r vs %d" % (res["n"], len(exprs)), None
     return True, res["bad"], res["oom"]
+
+
+SHARD_ABOVE = 20000      # the quick tier (< 20000 cells) keeps its single generated file
+SHARD_SIZE = 3000        # larger runs: several generated files, 4 coqc at a time (big list literals overflow coqc's stack)
+
+
+def coq_compare(ck, name, exprs, timeout=900):
+    """exprs: list of Coq terms of type Z (cmp_res ...). Returns (ok, disagree idx list, oom idx list | log)."""
+    if len(exprs) <= SHARD_ABOVE:
+        return _coq_compare_one(ck, name, exprs, timeout)
+    from concurrent.futures import ThreadPoolExecutor
+    offs = list(range(0, len(exprs), SHARD_SIZE))
+    with ThreadPoolExecutor(max_workers=4) as ex:
+        parts = list(ex.map(lambda o: _coq_compare_one(ck, "%s_%d" % (name, o // SHARD_SIZE), exprs[o:o + SHARD_SIZE], timeout), offs))
+    bad, oom = [], []
+    for o, (ok, b, m) in zip(offs, parts):
+        if not ok:
+            return False, b, None
+        bad += [o + i for i in b]
+        oom += [o + i for i in m]
+    return True, bad, oom
 
 
 def strictness_sites(repo):
